@@ -10,6 +10,10 @@ class FuncInfo:
         s.fn = fn; s.cfg = CFG(fn); s.cd = control_dependence(s.cfg); s.rd = Reaching(s.cfg, fn)
         s._node_of = {}
     def node_of(s, ast_node):
+        # compound statements are represented in the CFG by their header expression
+        if isinstance(ast_node, ast.For): ast_node = ast_node.iter
+        elif isinstance(ast_node, (ast.While, ast.If)): ast_node = ast_node.test
+        elif isinstance(ast_node, ast.Try) and ast_node.body: return s.node_of(ast_node.body[0])
         best = None
         for n in s.cfg.nodes:
             if n.ast is not None and n.kind != "def" and any(x is ast_node for x in ast.walk(n.ast)):
@@ -17,6 +21,9 @@ class FuncInfo:
         return best
     def guards(s, ast_node):
         """[(test, polarity)] incl. early-exit guards, short-circuit operands, comprehension filters and IfExp tests"""
+        if isinstance(ast_node, ast.For): ast_node = ast_node.iter
+        elif isinstance(ast_node, (ast.While, ast.If)): ast_node = ast_node.test
+        elif isinstance(ast_node, ast.Try) and ast_node.body: ast_node = ast_node.body[0]
         out = list(guards_of(s.cfg, s.cd, ast_node) or [])
         child = ast_node; a = getattr(ast_node, "_parent", None)
         while a is not None and not isinstance(a, ast.stmt):
